@@ -206,6 +206,9 @@ class Scope(object):
         # TODO(mdan): This is not accurate.
         self.parent.read.update(self.read - self.bound)
         self.parent.annotations.update(self.annotations - self.bound)
+        # The names bound in a nested function or lambda (its parameters
+        # included) shadow whatever the enclosing function generates.
+        self.parent.hidden.update(self.hidden | self.bound)
     self.is_final = True
 
   def __repr__(self):
@@ -311,6 +314,10 @@ class ActivityAnalyzer(transformer.Base):
       # In comprehensions, modified symbols are the comprehension targets.
       if self.state[_Comprehension].level > 0:
         self.state[_Comprehension].targets.add(qn)
+        # Not activity of the enclosing scope, but a name generated symbols
+        # must not reuse: code generated inside the comprehension would see
+        # the target instead.
+        self.scope.hidden.add(qn)
         return
 
       self.scope.modified.add(qn)
